@@ -47,4 +47,18 @@ HARNESSES = [
                      solver="cadical", tier="quick") for n in (0, 1)] +
                [dict(id="accounting_n2", defines={"PART": 1, "NSPARSE": 2, "__NO_CTYPE": None},
                      solver="cadical", tier="thorough", timeout=2400)]),
+    dict(name="hl_filter", file="hl_filter.c", label="bounded(entries <= 3)", defines=CT, timeout=900,
+         malloc_fail=True, flags=["--memory-leak-check"], unwind=5,
+         fp={"next:next": "env_next", "read_link:read_link": "env_read_link", "key_compare": "compare_inum",
+             "*": "env_never"},
+         cases=[dict(id="n2", defines={"NENT": 2, "__NO_CTYPE": None}, tier="quick"),
+                dict(id="n3", defines={"NENT": 3, "__NO_CTYPE": None}, tier="quick")]),
+    dict(name="write_long", file="write_long.c", label="bounded(name/target lengths 5,99,100,130,600)", defines=CT,
+         timeout=900, unwind=620, nochecks=["--conversion-check"],
+         unwindset=["sp_ndigits.0:23", "sp_digits.0:23", "is_prefix.0:10"],
+         fp={"append": "env_append", "*": "env_never"},
+         cases=[dict(id="n%d_t%d" % (n, t), defines={"NLEN": n, "TLEN": t, "__NO_CTYPE": None}, tier="quick")
+                for n, t in ((5, 0), (99, 0), (100, 0), (130, 0), (5, 99), (5, 100), (130, 130))] +
+               [dict(id="n600_t0", defines={"NLEN": 600, "TLEN": 0, "__NO_CTYPE": None}, tier="thorough"),
+                dict(id="n512_t0", defines={"NLEN": 512, "TLEN": 0, "__NO_CTYPE": None}, tier="thorough")]),
 ]
